@@ -499,6 +499,21 @@ fn c11_case(b: &Board, spec: &PosSpec, depth: u8, job: usize, ev: &SimpleEvaluat
             replay.clone(),
         );
     }
+    out::count("C11.audited_moves_looked_up_in_the_legal_move_list", audit.membership_checked);
+    if audit.not_generated > 0 {
+        out::violation(
+            "C11",
+            "search-plays-move-not-generated",
+            format!(
+                "depth {depth}: the search made {} move(s) that the move generator does not offer in the position they were made in (of {} looked up), first {}; on {}",
+                audit.not_generated,
+                audit.membership_checked,
+                audit.first_not_generated.clone().unwrap_or_default().replace('\n', " / "),
+                spec.text()
+            ),
+            replay.clone(),
+        );
+    }
     if audit.horizons_in_check > 0 {
         out::violation(
             "C11",
@@ -980,6 +995,32 @@ fn ev_sig(e: &TtEvent) -> (String, u64, Option<TTEntry>) {
     (e.site.to_string(), key_u64(e.key), e.entry)
 }
 
+/// Pairs (i, j) of write indices in a log: write i stores an Exact entry for a key, and the very
+/// next write j to the same key stores a different entry of the SAME depth. An Exact entry of
+/// depth d answers every later probe of that position up to depth d, so a finished node is never
+/// written again at its own depth; write i was therefore made while its node was still being
+/// searched (a provisional value), and a cut that falls between i and j leaves it in the cache.
+fn provisional_writes(log: &[TtEvent]) -> Vec<(usize, usize)> {
+    let mut last: HashMap<u64, usize> = HashMap::new();
+    let mut out = Vec::new();
+    for (j, e) in log.iter().enumerate() {
+        let k = key_u64(e.key);
+        if let (Some(&i), Some(ej)) = (last.get(&k), e.entry) {
+            if let Some(ei) = log[i].entry {
+                if matches!(ei.bound, crate::board::transposition_table::Bounds::Exact) && ei.depth == ej.depth && ei != ej {
+                    out.push((i, j));
+                }
+            }
+        }
+        last.insert(k, j);
+    }
+    out
+}
+
+thread_local! {
+    static PROVISIONAL: std::cell::RefCell<(usize, usize, Vec<(usize, usize)>)> = const { std::cell::RefCell::new((0, 0, Vec::new())) };
+}
+
 fn replay_table(log: &[TtEvent]) -> HashMap<u64, TTEntry> {
     let mut m = HashMap::new();
     for e in log {
@@ -1165,6 +1206,36 @@ fn c13_compare(
             ),
             replay.clone(),
         );
+    }
+    // 1b. nothing provisional may be left behind: the cut must not fall between a write and the
+    //     write that replaces it when the same node is finished (see provisional_writes)
+    if common >= s_log.len() {
+        let hit = PROVISIONAL.with(|c| {
+            let mut c = c.borrow_mut();
+            if c.0 != f_log.as_ptr() as usize || c.1 != f_log.len() {
+                *c = (f_log.as_ptr() as usize, f_log.len(), provisional_writes(f_log));
+                out::count("C13.full_logs_scanned_for_provisional_writes", 1);
+            }
+            let l = s_log.len();
+            c.2.iter().find(|(i, j)| *i < l && l <= *j).copied()
+        });
+        if let Some((i, j)) = hit {
+            let (a, b) = (&f_log[i], &f_log[j]);
+            out::violation(
+                "C13",
+                &format!("provisional-entry-left-behind-{}", a.site),
+                format!(
+                    "{how}: the cache keeps [{}] for key {} (write #{i}, site '{}'), a value stored while that node was still being searched: the uninterrupted search replaces it at the same depth by [{}] (write #{j}, site '{}') when the node is finished; depth {depth} on {}",
+                    entry_text(&a.entry),
+                    key_u64(a.key),
+                    a.site,
+                    entry_text(&b.entry),
+                    b.site,
+                    spec.text()
+                ),
+                replay.clone(),
+            );
+        }
     }
     // 2. no write once the budget is spent / the flag is down
     if let Some(bad) = s_log.iter().find(|e| budget.is_some_and(|b| e.nodes >= b)) {
